@@ -352,7 +352,7 @@ Section Holds.
 Variable c : case.
 Hypothesis Hwf : wf c = true.
 
-Let d := c_layersdir c.
+Let d := c_realdir c.
 Let fs := c_faults c.
 Let ps := c_procs c.
 
@@ -362,7 +362,7 @@ Lemma wf_parts :
   /\ match c_status c with Some i => (i <? length (c_layers c))%nat | None => true end = true.
 Proof.
   unfold wf in Hwf. repeat (apply andb_true_iff in Hwf as [Hwf ?]).
-  subst d. repeat split; auto. unfold wf_layersdir. now rewrite Hwf.
+  subst d. repeat split; auto.
 Qed.
 
 Lemma layer_no_slash L : In L (c_layers c) -> no_slash L = true.
@@ -615,7 +615,7 @@ Definition ex_procs : list proc :=
    MkProc (bs "self") true None None None None].
 Definition ex_faults : list fault := [MkFault 1 RCwd ENOENT; MkFault 1 RFdReaddir ENOENT].
 Definition ex_case : case :=
-  MkCase ex_dir [bs "build"; bs "overlayfs/workdir"; bs "overlayfs/upperdir"] [bs "a"; bs "ab"]
+  MkCase (bs "/var/lib/layercake/layers") ex_dir [bs "build"; bs "overlayfs/workdir"; bs "overlayfs/upperdir"] [bs "a"; bs "ab"]
          ex_procs ex_faults None (OProc SErr None []).
 
 Example ex_wf : wf ex_case = true /\ kf ex_case = 0%N /\ only_vanish ex_case = true.
